@@ -199,3 +199,52 @@ impl ConvCfg {
 }
 
 pub use refmodel::tensor::shapes_with_numel;
+
+/// One operation applied to an array and a reshaped VIEW of the same array (shared storage; the view's dimensions
+/// may be the array's own, a transposed-looking factorisation, or carry extra unit dimensions), in either operand
+/// order, once or twice, with one or two passes. Storage identity does not make two operands the same operand.
+pub fn view_alias_cases() -> Vec<GradCase> {
+    use OpKind::*;
+    let pairs: Vec<(Vec<usize>, Vec<usize>)> = vec![
+        (vec![3], vec![3, 1]),
+        (vec![3], vec![1, 3]),
+        (vec![3], vec![3]),
+        (vec![2, 3], vec![3, 2]),
+        (vec![2, 3], vec![2, 3]),
+        (vec![2, 3], vec![1, 2, 3]),
+        (vec![2, 3], vec![2, 1, 3]),
+        (vec![2, 2], vec![2, 2]),
+        (vec![2, 2], vec![2, 1, 2]),
+        (vec![2, 2], vec![1, 2, 2]),
+        (vec![2, 2], vec![4, 1]),
+        (vec![2, 2, 3], vec![2, 1, 2, 3]),
+        (vec![2, 2, 2], vec![2, 1, 2, 2]),
+        (vec![3, 1], vec![3]),
+        (vec![1, 3], vec![3, 1]),
+        (vec![2, 1, 2], vec![2, 2]),
+    ];
+    let ops: Vec<OpKind> = vec![Mul, Add, Sub, Div, Axpy(2.0), CBMul, CBAdd, Matmul { ta: false, tb: false, has_c: false }, Matmul { ta: false, tb: true, has_c: false }, Matmul { ta: true, tb: false, has_c: false }, Matmul { ta: true, tb: true, has_c: false }];
+    let mut out = vec![];
+    for (xd, vd) in &pairs {
+        for op in &ops {
+            for swap in [false, true] {
+                for (uses, passes) in [(1usize, 1usize), (2, 1), (1, 2)] {
+                    let n = numel(xd);
+                    // distinct values with a non-trivial pattern: a wrong pairing of elements is visible
+                    let vals: Vec<f64> = (0..n).map(|k| (k as f64) * 2.0 + 1.0 + if k % 2 == 0 { 0.0 } else { 4.0 }).collect();
+                    let leaf = LeafSpec { dims: xd.clone(), vals, tracked: true };
+                    // is the operation admissible on these two shapes?
+                    let mut st = refmodel::model::RefState::forward_only();
+                    let a = st.new_leaf(xd, &leaf.vals, false);
+                    let b = st.new_leaf(vd, &leaf.vals, false);
+                    let args = if swap { [b, a] } else { [a, b] };
+                    let Ok(t) = st.eval(op, &args) else { continue };
+                    let m = t.numel();
+                    let seed: Vec<f64> = (0..m).map(|k| ((k * 5 + 2) % 7) as f64 - 2.0).collect();
+                    out.push(GradCase { op: op.clone(), leaves: vec![leaf.clone(), leaf.clone()], seed: Some(seed), uses, passes, same_operand: false, detached_clone: 0, view_of_first: Some(vd.clone()), swap_operands: swap });
+                }
+            }
+        }
+    }
+    out
+}
